@@ -12,6 +12,8 @@ package file
 //   TestVerifC07Seq        scripted sequences of real truncateJob / commit / save calls (no strace), each save
 //                          followed by the real load() of a fresh offsetDB: the offset-0 family (a truncated
 //                          job holds 0 for every stream; 0 next to non-zero after one stream commits).
+//   TestVerifC07Owner      two real file plugins (Plugin.Start) whose offsets_file is spelled in different ways:
+//                          is the second one refused; if both start, what does the first one load back.
 //   TestVerifC07Conc       saves running concurrently with real jobProvider.commit calls while a reader
 //                          keeps loading the offsets file.
 //
@@ -37,9 +39,11 @@ import (
 
 	"github.com/ozontech/file.d/metric"
 	"github.com/ozontech/file.d/pipeline"
+	"github.com/ozontech/file.d/test"
 	"github.com/prometheus/client_golang/prometheus"
 	uatomic "go.uber.org/atomic"
 	"go.uber.org/zap"
+	"go.uber.org/zap/zapcore"
 )
 
 // ---------------------------------------------------------------------------------------------
@@ -503,6 +507,144 @@ func TestVerifC07Seq(t *testing.T) {
 	}
 	wg.Wait()
 	c07WriteJSON(t, out, map[string]interface{}{"executed": len(cases), "results": results})
+}
+
+// ---------------------------------------------------------------------------------------------
+// one writer per offsets file: the start-up guard of Plugin.Start
+
+type c07OwnerCase struct {
+	ID  int    `json:"id"`
+	Sp1 string `json:"sp1"` // plain | dot | slashes | updown | other | symlink
+	Sp2 string `json:"sp2"`
+}
+
+type c07OwnerResult struct {
+	ID            int         `json:"id"`
+	FirstRefused  string      `json:"first_refused,omitempty"`
+	SecondRefused string      `json:"second_refused,omitempty"`
+	BothStarted   bool        `json:"both_started"`
+	Path1         string      `json:"path1"`
+	Path2         string      `json:"path2"`
+	Loaded        []c07Loaded `json:"loaded"` // what pipeline 1 loads back after both saved (both started only)
+	LoadErr       string      `json:"load_err,omitempty"`
+	Panic         string      `json:"panic,omitempty"`
+}
+
+func c07Spell(dir, sp string) string {
+	sep := string(filepath.Separator)
+	switch sp {
+	case "plain":
+		return dir + sep + "offsets.yaml"
+	case "dot":
+		return dir + sep + "." + sep + "offsets.yaml"
+	case "slashes":
+		return dir + sep + sep + "offsets.yaml"
+	case "updown":
+		return dir + sep + "x" + sep + ".." + sep + "offsets.yaml"
+	case "symlink":
+		return dir + "-link" + sep + "offsets.yaml"
+	default: // another file
+		return dir + sep + "other.yaml"
+	}
+}
+
+// c07StartPlugin runs the real Plugin.Start; a Fatal log entry (the refusal) panics and is recovered.
+func c07StartPlugin(name, watchDir, offsetsFile string) (p *Plugin, refused string) {
+	cfg := &Config{WatchingDir: watchDir, OffsetsFile: offsetsFile, PersistenceMode: "async", MaintenanceInterval: "5s", RemoveAfter: "0"}
+	test.NewConfig(cfg, map[string]int{"gomaxprocs": 1})
+	lg := zap.New(zapcore.NewNopCore(), zap.WithFatalHook(zapcore.WriteThenPanic))
+	params := &pipeline.InputPluginParams{
+		PluginDefaultParams: pipeline.PluginDefaultParams{
+			PipelineName:     name,
+			PipelineSettings: &pipeline.Settings{},
+			MetricCtl:        metric.NewCtl("c07_"+name, prometheus.NewRegistry(), time.Minute, 0),
+		},
+		Logger: lg.Sugar(),
+	}
+	p = &Plugin{}
+	defer func() {
+		if r := recover(); r != nil {
+			refused = fmt.Sprint(r)
+			if refused == "" {
+				refused = "fatal"
+			}
+		}
+	}()
+	p.Start(cfg, params)
+	return p, ""
+}
+
+func c07OwnerRun(root string, c *c07OwnerCase) (res c07OwnerResult) {
+	res.ID = c.ID
+	res.Loaded = []c07Loaded{}
+	defer func() {
+		if r := recover(); r != nil {
+			res.Panic = fmt.Sprint(r)
+		}
+	}()
+	saved := offsetFiles // the package-level registry is reset per case, as the repository's tests do
+	offsetFiles = make(map[string]string)
+	defer func() { offsetFiles = saved }()
+
+	dir := filepath.Join(root, fmt.Sprintf("own%d", c.ID))
+	for _, d := range []string{dir, filepath.Join(dir, "x"), filepath.Join(dir, "wa"), filepath.Join(dir, "wb")} {
+		if err := os.MkdirAll(d, 0o700); err != nil {
+			panic(err)
+		}
+	}
+	_ = os.Symlink(dir, dir+"-link")
+	res.Path1, res.Path2 = c07Spell(dir, c.Sp1), c07Spell(dir, c.Sp2)
+
+	a, refused := c07StartPlugin(fmt.Sprintf("a%d", c.ID), filepath.Join(dir, "wa"), res.Path1)
+	if refused != "" {
+		res.FirstRefused = refused
+		return res
+	}
+	defer a.Stop()
+	b, refused := c07StartPlugin(fmt.Sprintf("b%d", c.ID), filepath.Join(dir, "wb"), res.Path2)
+	if refused != "" {
+		res.SecondRefused = refused
+		return res
+	}
+	defer b.Stop()
+	res.BothStarted = true
+
+	put := func(jp *jobProvider, src uint64, file string, off int64) {
+		job := &Job{filename: file, inode: inodeID(src), sourceID: pipeline.SourceID(src), shouldSkip: *uatomic.NewBool(false), mu: &sync.Mutex{}}
+		job.offsets.Set("stdout", off)
+		jp.jobsMu.Lock()
+		jp.jobs[job.sourceID] = job
+		jp.jobsMu.Unlock()
+	}
+	put(a.jobProvider, 1001, filepath.Join(dir, "wa", "a.log"), 500)
+	a.jobProvider.offsetDB.save(a.jobProvider.jobs, a.jobProvider.jobsMu)
+	put(b.jobProvider, 2002, filepath.Join(dir, "wb", "b.log"), 7)
+	b.jobProvider.offsetDB.save(b.jobProvider.jobs, b.jobProvider.jobsMu)
+	// pipeline a restarts: what does ITS offsets file load back to
+	lr := c07Load(c.ID, res.Path1)
+	res.Loaded, res.LoadErr = lr.Table, lr.Err+lr.Panic
+	return res
+}
+
+func TestVerifC07Owner(t *testing.T) {
+	in, out := os.Getenv("VERIF_CASES"), os.Getenv("VERIF_OUT")
+	if in == "" || out == "" {
+		t.Skip("VERIF_CASES / VERIF_OUT not set")
+	}
+	root, err := os.MkdirTemp(os.Getenv("VERIF_SCRATCH"), "c07-own-")
+	if err != nil {
+		t.Fatal(err)
+	}
+	defer os.RemoveAll(root)
+	results := []c07OwnerResult{}
+	c07ReadNDJSON(t, in, func(line []byte) {
+		c := &c07OwnerCase{}
+		if err := json.Unmarshal(line, c); err != nil {
+			t.Fatalf("bad case line: %v", err)
+		}
+		results = append(results, c07OwnerRun(root, c)) // sequential: the registry is a package-level variable
+	})
+	c07WriteJSON(t, out, map[string]interface{}{"executed": len(results), "results": results})
 }
 
 // ---------------------------------------------------------------------------------------------
